@@ -572,6 +572,409 @@ def stream_fit(chk, i, rng):
     chk.count(("fit", name, n, bs, max_iter, tuple(ml), tuple(cl)) if nact > 0 else None)
 
 
+# ------------------------------------------------------------------ round-3 streams: representations, degenerate sizes, other entry points
+def close(a, b, tol):
+    """elementwise closeness that treats equal infinities and NaN/NaN as equal"""
+    a, b = np.asarray(a, dtype=float), np.asarray(b, dtype=float)
+    if a.shape != b.shape:
+        return False
+    with np.errstate(all="ignore"):
+        return bool(np.all((a == b) | (np.abs(a - b) <= tol) | (np.isnan(a) & np.isnan(b))))
+
+
+REPRS = ["lists", "tuples", "tuple_of_tuples", "int64", "int32", "uint16", "float64", "float32", "fortran", "rows_view", "cols_view",
+         "transposed", "readonly", "readonly_fortran_int32", "bool"]
+
+
+def pairs_repr(kind, pairs):
+    """The same index pairs in another representation (None when the representation cannot hold the values)."""
+    pairs = [(int(a), int(b)) for a, b in pairs]
+    base = np.array(pairs, dtype=np.int64).reshape(-1, 2)
+    if kind == "lists":
+        return [list(p) for p in pairs]
+    if kind == "tuples":
+        return [tuple(p) for p in pairs]
+    if kind == "tuple_of_tuples":
+        return tuple(tuple(p) for p in pairs)
+    if kind in ("int64", "int32", "uint16", "float64", "float32"):
+        return base.astype(kind)
+    if kind == "fortran":
+        return np.asfortranarray(base)
+    if kind == "rows_view":
+        big = np.full((2 * len(pairs), 2), -7, dtype=np.int64)
+        big[::2] = base
+        return big[::2]
+    if kind == "cols_view":
+        return np.ascontiguousarray(base[:, ::-1])[:, ::-1]
+    if kind == "transposed":
+        return np.ascontiguousarray(base.T).T
+    if kind == "readonly":
+        a = base.copy()
+        a.setflags(write=False)
+        return a
+    if kind == "readonly_fortran_int32":
+        a = np.asfortranarray(base.astype(np.int32))
+        a.setflags(write=False)
+        return a
+    if kind == "bool":
+        return base.astype(bool) if base.size and base.max() <= 1 else None
+    raise ValueError(kind)
+
+
+def snapshot(obj):
+    """bit-for-bit image of a caller-owned argument"""
+    if isinstance(obj, np.ndarray):
+        return ("nd", obj.dtype.str, obj.shape, obj.strides, obj.tobytes())
+    return ("py", repr(obj))
+
+
+def direct_epoch(est, X, Yfull, Gfull, seed, yrep="c", grep="c"):
+    """Decorated _batchify then decorated _compute_grads (recording inner function already installed as est._rec)."""
+    out = []
+    for Xb, _ in est._batchify(X, None, np.random.RandomState(seed)):
+        idx = [int(v) for v in est._batchify.indices]
+        y_pred, grad = Yfull[idx].copy(), Gfull[idx].copy()
+        if yrep == "fortran_readonly":
+            y_pred = np.asfortranarray(y_pred)
+            y_pred.setflags(write=False)
+        if grep == "fortran":
+            grad = np.asfortranarray(grad)
+        elif grep == "view":
+            big = np.zeros((grad.shape[0], 2 * grad.shape[1]))
+            big[:, ::2] = grad
+            grad = big[:, ::2]
+        y0 = np.array(y_pred, copy=True)
+        est._compute_grads(Xb, y_pred, grad)
+        out.append((idx, [int(v) for v in Xb[:, 0]], y0, np.array(y_pred, copy=True), np.array(est._rec[-1], copy=True)))
+    return out
+
+
+def decorated_recorder(name, bs, K, ml_obj, cl_obj, f):
+    est = impl.make(name, batch_size=bs, n_clusters=max(K, 1))
+    est._rec = []
+
+    def inner(X, y_pred, gradient):
+        est._rec.append(np.array(gradient, copy=True))
+        return SENT
+    est._compute_grads = inner
+    st, info = call_add(ml_obj, cl_obj, est=est, factor=f)
+    return st, info, est
+
+
+def stream_repr(chk, i, rng):
+    """Same constraint values in another representation -> same verdict, same injected gradient, arguments untouched."""
+    names = list(impl.GRADIENT_ESTIMATORS)
+    name = names[i % len(names)]
+    n = int(rng.integers(3, 14))
+    K = int(rng.integers(1, 4))
+    bs = [None, n, n + 2, max(1, n // 2), 1][i % 5]
+    f = float(rng.choice([1.0, 0.75, 2.5]))
+    ml, cl = consistent_pairs(rng, n, 20)
+    if i % 4 == 3:          # 0/1 indices so that the bool representation applies
+        ml, cl = ([(1, 0)], []) if rng.random() < 0.5 else ([], [(0, 1)])
+    kinds = [REPRS[(i + k * 4) % len(REPRS)] for k in range(4)]
+    replay = {"estimator": name, "n": n, "K": K, "batch_size": bs, "must_link": ml, "cannot_link": cl, "factor": f}
+    X = np.hstack([np.arange(n, dtype=float).reshape(-1, 1), rng.normal(size=(n, 2))])
+    X.setflags(write=False)
+    Yfull = impl.softmax_rows(rng.normal(size=(n, K)))
+    Gfull = rng.normal(size=(n, K))
+    seed = int(rng.integers(0, 2 ** 31 - 1))
+    st, info, est = decorated_recorder(name, bs, K, pairs_repr("lists", ml) or None, pairs_repr("lists", cl) or None, f)
+    if st != "accept":
+        chk.fail("repr:consistent-rejected", f"reference representation rejected: {info}", replay, layer="L3")
+        chk.count(None)
+        return
+    ref = direct_epoch(est, X, Yfull, Gfull, seed)
+    # the reference itself against the model / oracle (so that a slip common to all representations is seen here too)
+    for idx, tags, y0, y1, got in ref:
+        if tags != idx:
+            chk.fail("repr:indices", "recorded batch indices are not the samples of the batch", dict(replay, recorded=idx), layer="L3")
+        compare_rows(chk, "repr", f, idx, y0, ml, cl, Gfull[idx], got, dict(replay, seed=seed))
+    # a contradictory variant: every representation must reject it as well
+    bad_ml = ml + [(0, 1)] if (0, 1) not in ml and (1, 0) not in ml else ml
+    bad_cl = cl + [(1, 0)]
+    for kind in kinds:
+        a, b = (pairs_repr(kind, ml) if ml else None), (pairs_repr(kind, cl) if cl else None)
+        if (ml and a is None) or (cl and b is None):
+            continue
+        sa, sb = snapshot(a), snapshot(b)
+        st, info, est2 = decorated_recorder(name, bs, K, a, b, f)
+        rp = dict(replay, representation=kind)
+        chk.dist["repr:" + kind] += 1
+        if st != "accept":
+            chk.fail(f"repr:{kind}:verdict", f"accepted as lists of ints but as {kind}: {type(info).__name__}: {info}", rp, layer="L3")
+            continue
+        yrep, grep = ("fortran_readonly", ["fortran", "view"][i % 2]) if kind in ("fortran", "readonly", "cols_view") else ("c", "c")
+        try:
+            got = direct_epoch(est2, X, Yfull, Gfull, seed, yrep, grep)
+        except Exception as e:  # noqa
+            chk.fail(f"repr:{kind}:raises", f"the decorated gradient raised {type(e).__name__}: {e} although the reference representation runs", rp, layer="L3")
+            continue
+        same = len(got) == len(ref) and all(g[0] == r[0] and close(g[4], r[4], 1e-12 * (1 + np.abs(r[4]).max(initial=0.0))) for g, r in zip(got, ref))
+        if not same:
+            chk.fail(f"repr:{kind}:result", "the injected gradient depends on the representation of the constraint lists / prediction and gradient arrays", rp, layer="L3")
+        if any(not np.array_equal(g[2], g[3]) for g in got):
+            chk.fail(f"repr:{kind}:y_pred-modified", "the prediction array was modified", rp, layer="L3")
+        if snapshot(a) != sa or snapshot(b) != sb:
+            chk.fail(f"repr:{kind}:argument-modified", "add_mlcl_constraint / the decorated methods modified the caller's constraint arrays", rp, layer="L3")
+        sbm, sbc = pairs_repr(kind, bad_ml), pairs_repr(kind, bad_cl)
+        if sbm is not None and sbc is not None:
+            st2, info2 = call_add(sbm, sbc)
+            if st2 != "reject":
+                chk.fail(f"repr:{kind}:contradiction-accepted", f"a contradictory set given as {kind} was not rejected ({st2}: {info2})",
+                         dict(rp, must_link=bad_ml, cannot_link=bad_cl), layer="L3")
+    if i % 3 == 0:          # end to end: the fitted model does not depend on the representation
+        e2e = ["LinearMMD", "LinearModel", "MLPMMD", "CategoricalMMD", "SparseLinearMMD", "RIM"][(i // 3) % 6]
+        Xf = rng.normal(size=(n, 3))
+        res = []
+        for kind in ["lists"] + kinds[:2]:
+            a, b = (pairs_repr(kind, ml) if ml else None), (pairs_repr(kind, cl) if cl else None)
+            if (ml and a is None) or (cl and b is None):
+                continue
+            m = impl.make(e2e, n_clusters=2, max_iter=3, batch_size=bs, random_state=7)
+            st, info = call_add(a, b, est=m, factor=f)
+            if st != "accept":
+                continue
+            try:
+                m.fit(Xf.copy())
+                res.append((kind, [np.array(w, copy=True) for w in m._get_weights()], m.labels_.copy()))
+            except Exception as e:  # noqa
+                res.append((kind, e, None))
+        for kind, w, lab in res[1:]:
+            r0 = res[0]
+            if isinstance(r0[1], Exception) or isinstance(w, Exception):
+                if isinstance(r0[1], Exception) != isinstance(w, Exception):
+                    chk.fail(f"repr:{kind}:fit-raises", f"decorated fit: {r0[0]} -> {type(r0[1]).__name__}, {kind} -> {type(w).__name__}: {w if isinstance(w, Exception) else r0[1]}",
+                             dict(replay, representation=kind, e2e=e2e), layer="L3")
+                continue
+            if not (np.array_equal(lab, r0[2]) and all(close(x, y, 1e-12 * (1 + np.abs(y).max(initial=0.0))) for x, y in zip(w, r0[1]))):
+                chk.fail(f"repr:{kind}:fit-differs", "the decorated fit depends on the representation of the constraint lists", dict(replay, representation=kind, e2e=e2e), layer="L3")
+        chk.dist["repr:e2e-fit"] += 1
+        chk.traces += 1
+    chk.count(("repr", name, n, K, bs, tuple(ml), tuple(cl), tuple(kinds)))
+
+
+def stream_single(chk, i, rng):
+    """One single must-link pair that is itself in cannot_link (either order) must be rejected through the public path;
+    one pair next to it must be accepted.  Index values: 0/1, non-contiguous, huge (the huge ones are judged by the oracle only)."""
+    a, b = [(0, 1), (1, 0), (3, 42), (250, 7), (10 ** 6, 5), (2 ** 40, 2 ** 31 + 1)][i % 6]
+    huge = max(a, b) > 300
+    others = [(a + 2, b + 5), (b, a + 9), (b + 11, a)]
+    variant = (i // 6) % 6
+    ml = [(a, b)]
+    cl = [[(a, b)], [(b, a)], [others[0], (b, a)], [(a, b), others[1]], [others[0], others[1]], [others[2]]][variant]
+    expect = variant >= 4      # accept only when the pair itself is not forbidden
+    kind = REPRS[(i * 5) % len(REPRS)]
+    if kind in ("uint16", "bool", "float32") and huge or kind == "bool":
+        kind = "tuples"
+    if kind == "int32" and max(a, b) >= 2 ** 31 - 10:
+        kind = "int64"
+    A, B = pairs_repr(kind, ml), pairs_repr(kind, cl)
+    est = impl.make(list(impl.GRADIENT_ESTIMATORS)[i % len(impl.GRADIENT_ESTIMATORS)])
+    st, info = call_add(A, B, est=est, factor=[1.0, 1e-300, 1e300, 5e-324][i % 4])
+    rp = {"must_link": ml, "cannot_link": cl, "representation": kind}
+    if st == "other":
+        chk.fail("single:exception-kind", f"raised {type(info).__name__}: {info}", rp, layer="L3")
+    elif (st == "accept") != expect:
+        chk.fail("single:" + ("contradiction-accepted" if st == "accept" else "consistent-rejected"),
+                 f"single must-link pair {ml[0]} with cannot-link {cl}: {'accepted' if st == 'accept' else 'rejected'}", rp, layer="L3")
+    if oracle_valid(ml, cl) != expect:
+        chk.fail("single:harness", "harness expectation disagrees with the union-find oracle", rp, layer="L3")
+    if not huge:
+        mv = model_valid(chk, ml, cl)
+        if (st == "accept") != mv and st != "other":
+            chk.fail("single:model-mismatch", f"model says valid={mv}", rp)
+    chk.dist[f"single:{'huge' if huge else 'small'}:{'accept' if expect else 'reject'}"] += 1
+    chk.count(("single", a, b, variant, kind))
+
+
+def stream_adversarial(chk, i, rng):
+    """One pair, adversarial floats in factor / predictions / gradient: the two rows of the pair must be exactly
+    g (+/-) factor*(y_i - y_j) computed in binary64 (same operations), all other rows untouched."""
+    n, K = int(rng.integers(2, 7)), int(rng.integers(1, 4))
+    f = [1.0, 5e-324, 1e-300, 1e300, float(np.nextafter(1.0, 2.0)), 0.1 + 0.2, 1.7976931348623157e308][i % 7]
+    specials = np.array([0.0, -0.0, 0.3, 0.1 + 0.2, 1e300, -1e300, 5e-324, 2.2250738585072014e-308, 1.0, float(np.nextafter(1.0, 0.0)), 0.5, 1e-17])
+    Y = rng.choice(specials, size=(n, K))
+    G = rng.choice(specials, size=(n, K))
+    u, v = (int(x) for x in rng.choice(n, size=2, replace=False))
+    if i % 3 == 0:
+        Y[v] = Y[u]            # exact tie: the difference is +0.0 everywhere
+    is_ml = i % 2 == 0
+    ml, cl = ([(u, v)], []) if is_ml else ([], [(u, v)])
+    bs = [None, n, n + 1][i % 3]
+    st, info, est = decorated_recorder(list(impl.GRADIENT_ESTIMATORS)[i % len(impl.GRADIENT_ESTIMATORS)], bs, K, ml or None, cl or None, f)
+    rp = {"n": n, "K": K, "factor": f.hex(), "must_link": ml, "cannot_link": cl, "Y": [[x.hex() for x in r] for r in Y.tolist()], "G": [[x.hex() for x in r] for r in G.tolist()]}
+    if st != "accept":
+        chk.fail("adversarial:rejected", f"valid call rejected: {type(info).__name__}: {info}", rp, layer="L3")
+        chk.count(None)
+        return
+    X = np.arange(n, dtype=float).reshape(-1, 1)
+    with np.errstate(all="ignore"):
+        out = direct_epoch(est, X, Y, G, int(rng.integers(0, 2 ** 31 - 1)))
+        for idx, tags, y0, y1, got in out:
+            pu, pv = idx.index(u), idx.index(v)
+            exp = G[idx].copy()
+            if is_ml:
+                exp[pu] = exp[pu] - f * (y0[pu] - y0[pv])
+                exp[pv] = exp[pv] - f * (y0[pv] - y0[pu])
+            else:
+                exp[pu] = exp[pu] + f * (y0[pu] - y0[pv])
+                exp[pv] = exp[pv] + f * (y0[pv] - y0[pu])
+            if not close(got, exp, 0.0):
+                chk.fail("adversarial:rows-or-sign", "the two rows of the pair are not g -/+ factor*(y_i - y_j) in binary64", dict(rp, indices=idx), layer="L3")
+            rest = [p for p in range(len(idx)) if p not in (pu, pv)]
+            if got[rest].tobytes() != G[idx][rest].tobytes():
+                chk.fail("adversarial:untouched-changed", "a row outside the pair changed (bit-wise)", dict(rp, indices=idx), layer="L3")
+            if np.all(np.isfinite(exp)) and np.all(np.isfinite(Y)):
+                m = model_decorate(chk, f, idx, y0, ml, cl, G[idx])
+                if not close(got, m, 1e-9 * (1 + float(np.abs(exp).max(initial=0.0)))):
+                    chk.fail("adversarial:model-mismatch", "differs from the extracted model", dict(rp, indices=idx))
+            else:
+                chk.dist["adversarial:nonfinite"] += 1
+    chk.dist[f"adversarial:f={f:.3g}"] += 1
+    chk.count(("adv", i, n, K))
+
+
+def traced_run(chk, key, name, kw, X, y, ml, cl, f, entry, entry_kw, replay, kinds=("lists", "lists"), readonly=False, steps=None):
+    """A real decorated fit / fit_predict / path with the GEMINI gradient and the gradient at _compute_grads entry
+    recorded at every step; every argument compared with a copy taken before the call."""
+    n = len(X)
+    est = impl.make(name, **kw)
+    glog, rec = [], []
+    orig_cg, orig_gg = est._compute_grads, est.get_gemini
+
+    def inner(Xb, y_pred, gradient):
+        rec.append({"idx": [int(v) for v in est._batchify.indices], "y": np.array(y_pred, copy=True),
+                    "g": np.array(gradient, copy=True), "tags": np.asarray(Xb)[:, 0].copy(), "nG0": len(glog)})
+        return orig_cg(Xb, y_pred, gradient)
+    est._compute_grads = inner
+    est.get_gemini = lambda: GemProxy(orig_gg(), glog)
+    A = pairs_repr(kinds[0], ml) if ml else None
+    B = pairs_repr(kinds[1], cl) if cl else None
+    Xa = X.copy()
+    ya = None if y is None else y.copy()
+    if readonly:
+        Xa.setflags(write=False)
+        if ya is not None:
+            ya.setflags(write=False)
+    snaps = [snapshot(o) for o in (A, B, Xa, ya)]
+    st, info = call_add(A, B, est=est, factor=f)
+    if st != "accept":
+        chk.fail(key + ":consistent-rejected", f"a consistent constraint set was rejected: {info}", replay, layer="L3")
+        return 0
+    try:
+        out = getattr(est, entry)(Xa, ya, **entry_kw)
+    except Exception as e:  # noqa
+        try:
+            getattr(impl.make(name, **kw), entry)(X.copy(), None if y is None else y.copy(), **entry_kw)
+            plain_ok = True
+        except Exception:  # noqa
+            plain_ok = False
+        if plain_ok:
+            chk.fail(key + ":decorated-raises", f"the decorated {entry} raised {type(e).__name__}: {e} although the undecorated {entry} runs", replay, layer="L3")
+        else:
+            chk.dist[key + ":config-fails-without-constraints"] += 1
+        return 0
+    if [snapshot(o) for o in (A, B, Xa, ya)] != snaps:
+        chk.fail(key + ":argument-modified", f"{entry} on a decorated model modified one of its arguments (constraints, X, y)", replay, layer="L3")
+    if entry == "fit_predict" and not np.array_equal(out, est.labels_):
+        chk.fail(key + ":fit_predict", "fit_predict does not return labels_", replay, layer="L3")
+    if steps is not None and (len(rec) != steps or len(glog) != steps):
+        chk.fail(key + ":steps", f"{len(rec)} decorated gradient calls / {len(glog)} GEMINI gradients for {steps} expected steps", replay, layer="L3")
+    nact, seen = 0, []
+    for t, r in enumerate(rec):
+        if r["nG0"] != t + 1:
+            chk.fail(key + ":interleave", "GEMINI gradient and _compute_grads calls are not one-to-one", replay, layer="L3")
+            return nact
+        idx = r["idx"]
+        if name != "KernelRIM" and [int(round(v * 8)) for v in r["tags"]] != idx:
+            chk.fail(key + ":indices", "recorded batch indices are not the samples of the batch handed to _compute_grads", dict(replay, step=t, recorded=idx), layer="L3")
+            return nact
+        if glog[t].shape != r["g"].shape:
+            chk.fail(key + ":shape", "gradient shape changed", replay, layer="L3")
+            return nact
+        ok, na = compare_rows(chk, key, f, idx, r["y"], ml, cl, glog[t], r["g"], dict(replay, step=t))
+        nact += na
+        seen += idx
+        if not ok:
+            return nact
+    if len(seen) % n != 0 or sorted(seen) != sorted(list(range(n)) * (len(seen) // n)):
+        chk.fail(key + ":coverage", "the recorded indices over the run are not whole epochs over all samples", replay, layer="L3")
+    if not rec:
+        chk.fail(key + ":no-steps", f"{entry} performed no decorated gradient step", replay, layer="L3")
+    chk.traces += 1
+    return nact
+
+
+def bs_label(bs, n):
+    return "None" if bs is None else "=n" if bs == n else ">n" if bs > n else "<n"
+
+
+def stream_entry(chk, i, rng):
+    """path() and fit_predict() on decorated models (their own copies of the training loop / route to the affinity),
+    batch_size None / = n / > n / < n, precomputed affinities, read-only arguments."""
+    n = int(rng.integers(6, 13))
+    d = int(rng.integers(3, 6))
+    bs = [None, n, n + 3, max(2, n // 2), 1][i % 5]
+    f = float(rng.choice([1.0, 0.25, 4.0]))
+    ml, cl = consistent_pairs(rng, n, 10)
+    X = rng.normal(size=(n, d))
+    X[:, 0] = np.arange(n) / 8.0
+    readonly = i % 2 == 0
+    kinds = (REPRS[(i * 3) % 14], REPRS[(i * 7 + 2) % 14])       # never "bool"
+    if i % 3 != 2:
+        name = impl.SPARSE[(i // 3) % len(impl.SPARSE)]
+        entry = "path"
+        bsp = bs if bs != 1 else 2
+        kw = dict(n_clusters=2, max_iter=2, batch_size=bsp, alpha=0.5, random_state=int(rng.integers(0, 1000)))
+        ekw = dict(alpha_multiplier=3.0, min_features=d - 1, max_patience=1)
+        pre = name.endswith("MMD") and (i // 3) % 2 == 0
+        bs = bsp
+    else:
+        names = list(impl.GRADIENT_ESTIMATORS)
+        name = names[(i // 3) % len(names)]
+        entry = "fit_predict"
+        kw = dict(n_clusters=2, max_iter=2, batch_size=bs, random_state=int(rng.integers(0, 1000)))
+        ekw = {}
+        pre = name.endswith("MMD") and (i // 3) % 2 == 1
+    y = None
+    if pre:
+        kw["kernel"] = "precomputed"
+        y = X @ X.T - 0.3            # symmetric, negative entries
+    replay = {"estimator": name, "entry": entry, "n": n, "d": d, "batch_size": bs, "factor": f, "must_link": ml, "cannot_link": cl,
+              "precomputed": pre, "readonly": readonly, "representations": kinds}
+    steps = None
+    if entry == "fit_predict":
+        bs_eff = n if (bs is None or name in impl.NONPARAMETRIC) else bs
+        steps = 2 * (-(-n // bs_eff))
+    nact = traced_run(chk, "entry:" + entry, name, kw, X, y, ml, cl, f, entry, ekw, replay, kinds, readonly, steps)
+    chk.dist[f"entry:{entry}:bs{bs_label(bs, n)}"] += 1
+    chk.dist[f"entry:{entry}:{name}"] += 1
+    if pre:
+        chk.dist["entry:precomputed"] += 1
+    chk.count(("entry", entry, name, n, bs, pre, tuple(ml), tuple(cl)) if nact > 0 else None)
+
+
+def stream_degenerate(chk, i, rng):
+    """Sizes 1 through the public path: one cluster, one sample per cluster, one feature, two samples, one pair;
+    batch_size = n, n + 1 and 1."""
+    names = list(impl.GRADIENT_ESTIMATORS)
+    name = names[i % len(names)]
+    shape = ["K=1", "n=K", "d=1", "n=2"][(i // len(names) + i) % 4]
+    n, d, K = {"K=1": (5, 2, 1), "n=K": (3, 2, 3), "d=1": (6, 1, 2), "n=2": (2, 2, 2)}[shape]
+    bs = [n, n + 1, 1, None][(i // 4) % 4]
+    u, v = (int(x) for x in rng.choice(n, size=2, replace=False))
+    ml, cl = ([(u, v)], []) if i % 2 == 0 else ([], [(v, u)])
+    X = rng.normal(size=(n, d))
+    X[:, 0] = np.arange(n) / 8.0
+    kw = dict(n_clusters=K, max_iter=2, batch_size=bs, random_state=int(rng.integers(0, 1000)))
+    replay = {"estimator": name, "entry": "fit", "shape": shape, "n": n, "d": d, "K": K, "batch_size": bs, "must_link": ml, "cannot_link": cl, "factor": 1.5}
+    bs_eff = n if (bs is None or name in impl.NONPARAMETRIC) else bs
+    nact = traced_run(chk, "degenerate", name, kw, X, None, ml, cl, 1.5, "fit", {}, replay, ("tuples", "int32"), False, 2 * (-(-n // bs_eff)))
+    chk.dist[f"degenerate:{shape}:bs{bs_label(bs, n)}"] += 1
+    chk.count(("degenerate", name, shape, bs) if nact > 0 else None)
+
+
 STREAMS = {  # name: (fn, quick, thorough)
     "corpus": (stream_corpus, len(CORPUS), len(CORPUS)),
     "exhaustive": (stream_exhaustive, len(SETS) * len(SETS), len(SETS) * len(SETS)),
@@ -581,6 +984,11 @@ STREAMS = {  # name: (fn, quick, thorough)
     "api": (stream_api, 7, 7),
     "grads": (stream_grads, 850, 25000),
     "fit": (stream_fit, 272, 6800),
+    "repr": (stream_repr, 60, 1500),
+    "single": (stream_single, 36, 360),
+    "adversarial": (stream_adversarial, 42, 1050),
+    "entry": (stream_entry, 45, 900),
+    "degenerate": (stream_degenerate, 68, 680),
 }
 FIXED = ("corpus", "exhaustive", "exhaustive6", "api")
 
@@ -606,7 +1014,11 @@ def main():
                     "flat lists, single-column, zero-column, ragged, 3-4 column and well-shaped inputs on both arguments; grads = decorated _batchify then decorated _compute_grads "
                     "of every gradient estimator with a recording inner function (2 epochs, K=1..5, batch_size 1..n+2/None, pairs reaching outside the data); fit = real decorated fits "
                     "with the GEMINI gradient and the gradient at _compute_grads entry recorded at every step (8 batch sizes). non-trivial = validation case with both lists non-empty "
-                    "(structural check reached) / malformed or absent argument / gradient case with at least one pair wholly inside a batch; distinct = distinct input signature")
+                    "(structural check reached) / malformed or absent argument / gradient case with at least one pair wholly inside a batch; distinct = distinct input signature. "
+                    "round 3: repr = the same constraints as lists/tuples/int64/int32/uint16/float64/float32/bool/Fortran/views/read-only arrays (and Fortran/read-only/strided prediction and gradient arrays) "
+                    "give the same verdict, the same injected gradient, the same fitted model, arguments bit-identical; single = one must-link pair itself in cannot_link (either order, huge indices too); "
+                    "adversarial = one pair with denormal/huge/adjacent-double factor and entries, exact ties, -0.0; entry = decorated path() and fit_predict() with batch_size None/=n/>n/<n, precomputed affinity, "
+                    "read-only arguments; degenerate = K=1, n=K, d=1, n=2 with batch_size n/n+1/1 through fit")
 
 
 if __name__ == "__main__":
